@@ -25,10 +25,11 @@ Definition enc_nt (d : ntdict) : sexp := enc_list (enc_pair enc_str enc_ntv) d.
 
 Definition dec_env (s : sexp) : option env :=
   match s with
-  | SL [b; o; f; nt; cm] =>
-      match dec_list dec_str b, dec_list dec_str o, dec_list dec_str f, dec_bool nt, dec_list dec_str cm with
-      | Some b, Some o, Some f, Some nt, Some cm => Some {| e_base := b; e_own := o; e_fields := f; e_nt := nt; e_tdcm := cm |}
-      | _, _, _, _, _ => None
+  | SL [b; o; f; nt; cm; cw] =>
+      match dec_list dec_str b, dec_list dec_str o, dec_list dec_str f, dec_bool nt, dec_list dec_str cm, dec_list dec_str cw with
+      | Some b, Some o, Some f, Some nt, Some cm, Some cw =>
+          Some {| e_base := b; e_own := o; e_fields := f; e_nt := nt; e_tdcm := cm; e_cmw := cw |}
+      | _, _, _, _, _, _ => None
       end
   | _ => None
   end.
